@@ -3,7 +3,7 @@ import io
 import numpy as np
 from hypothesis import strategies as st
 from vf import gens
-from vf.runner import hyp_run, run_cases, guard, fail, exc_failure
+from vf.runner import hyp_run, run_cases, guard, guard_deadline, fail, exc_failure
 
 THOROUGH_SCALE = 6      # multiplies every generated-case budget of the thorough tier
 RULE = ("drivers: labelimage, peaksearcher.peaksearch with three thresholds, and (one case in six) the command-line program peaksearch_driver on EDF files (angle from Omega / a named motor / -T -S, reader thread or --singleThread); " +
@@ -349,7 +349,8 @@ def check(case, rec=None):
             options, rest = parser.parse_known_args(args)
             with contextlib.redirect_stdout(io.StringIO()):
                 peaksearcher.peaksearch_driver(options, rest)
-        ok, e = guard(run_script)
+        # the program runs reader / corrector / search threads: a thread that dies leaves the others waiting
+        ok, e = guard_deadline(rec, "frames", case, 300, run_script)
         if not ok:
             fails.append(exc_failure("peaksearch_driver", e))
         else:
